@@ -528,6 +528,82 @@ def feature(repo, chk):
         chk.expect(seen_dom >= {'random draw from [low, high]', 'default range [low, low + cardinality)', 'given list'}, 'C19.4d', 'R7', fn.site(), ', '.join(sorted(seen_dom)), 'all three ways of naming a domain are served', 'a way of naming the domain (default range / random draw / given list) is no longer served', soft=True)
 
 
+def _threshold_table(fn, m, S, T, tdef):
+    """('ok',) / ('bad', why, node) / ('unsure', why, node): the statements after `T = S[:, 30]` applied to every value 10..99"""
+    if tdef is None:
+        return ('unsure', 'the needle column is not taken as sample[:, 30]', None)
+    dom = list(range(10, 100))
+    cur = {v: v for v in dom}
+    env = {}
+
+    class Out(Exception):
+        pass
+
+    def mask(e):
+        if isinstance(e, ast.Name) and e.id in env:
+            return env[e.id]
+        if isinstance(e, ast.UnaryOp) and isinstance(e.op, (ast.Invert, ast.Not)):
+            mm = mask(e.operand)
+            return {v: not mm[v] for v in dom}
+        if isinstance(e, ast.BinOp) and isinstance(e.op, (ast.BitAnd, ast.BitOr)):
+            a, b = mask(e.left), mask(e.right)
+            return {v: (a[v] and b[v]) if isinstance(e.op, ast.BitAnd) else (a[v] or b[v]) for v in dom}
+        if isinstance(e, ast.Call) and m.dotted(e.func) == 'numpy.logical_not' and len(e.args) == 1:
+            mm = mask(e.args[0])
+            return {v: not mm[v] for v in dom}
+        if isinstance(e, ast.Compare) and len(e.ops) == 1:
+            l, r, op = e.left, e.comparators[0], e.ops[0]
+            fns = {ast.Lt: lambda a, b: a < b, ast.LtE: lambda a, b: a <= b, ast.Gt: lambda a, b: a > b, ast.GtE: lambda a, b: a >= b, ast.Eq: lambda a, b: a == b, ast.NotEq: lambda a, b: a != b}
+            if type(op) not in fns:
+                raise Out(ast.unparse(e))
+            f = fns[type(op)]
+            if isinstance(l, ast.Name) and l.id == T and isinstance(r, ast.Constant) and isinstance(r.value, (int, float)):
+                return {v: f(cur[v], r.value) for v in dom}
+            if isinstance(r, ast.Name) and r.id == T and isinstance(l, ast.Constant) and isinstance(l.value, (int, float)):
+                return {v: f(l.value, cur[v]) for v in dom}
+        raise Out(ast.unparse(e))
+
+    def const(e):
+        if isinstance(e, ast.Constant) and isinstance(e.value, (int, float)) and not isinstance(e.value, bool):
+            return e.value
+        raise Out(ast.unparse(e))
+    started = False
+    for st in fn.node.body:
+        if st is tdef:
+            started = True
+            continue
+        if not started or isinstance(st, (ast.Return, ast.Pass)) or (isinstance(st, ast.Expr) and isinstance(st.value, ast.Constant)):
+            continue
+        try:
+            if isinstance(st, ast.Assign) and len(st.targets) == 1 and isinstance(st.targets[0], ast.Name) and st.targets[0].id not in (S, T):
+                names = {x.id for x in ast.walk(st.value) if isinstance(x, ast.Name)}
+                if T in names or names & set(env):
+                    env[st.targets[0].id] = mask(st.value)
+                continue
+            if isinstance(st, ast.Assign) and len(st.targets) == 1 and isinstance(st.targets[0], ast.Subscript) and isinstance(st.targets[0].value, ast.Name) and st.targets[0].value.id == T:
+                sl = st.targets[0].slice
+                if isinstance(sl, ast.Slice) and sl.lower is None and sl.upper is None and sl.step is None:
+                    v_ = st.value
+                    if isinstance(v_, ast.Call) and m.dotted(v_.func) == 'numpy.where' and len(v_.args) == 3:
+                        mm, a, b = mask(v_.args[0]), const(v_.args[1]), const(v_.args[2])
+                        cur = {v: (a if mm[v] else b) for v in dom}
+                        continue
+                    raise Out(ast.unparse(st))
+                mm = mask(sl)
+                c = const(st.value)
+                cur = {v: (c if mm[v] else cur[v]) for v in dom}
+                continue
+            if any(isinstance(x, ast.Name) and x.id in (S, T) for x in ast.walk(st)):
+                raise Out(ast.unparse(st)[:80])
+        except Out as e:
+            return ('unsure', str(e)[:100], st)
+    wrong = [v for v in dom if cur[v] != (0 if v < 40 else 1)]
+    if wrong:
+        v = wrong[0]
+        return ('bad', f'a needle value of {v} gets the label {cur[v]} instead of {0 if v < 40 else 1}' + (f' ({len(wrong)} of the 90 possible values are labelled differently)' if len(wrong) > 1 else ''), None)
+    return ('ok',)
+
+
 def naive(repo, chk):
     fn = repo.func(GN, 'generate_random_matrix')
     m = fn.module
@@ -546,8 +622,18 @@ def naive(repo, chk):
     others = [n for n in own_nodes(fn.node) if isinstance(n, ast.Call) and (m.dotted(n.func) or '').startswith('numpy.random.') and n is not (sd[0].value if sd else None)]
     for o_ in others:
         chk.bad('C19.7b', 'R10', fn.site(o_), ast.unparse(o_)[:100], 'the naive generator draws further random numbers after the sample: the label is no longer a deterministic function of the needle column alone')
-    chk.expect(ok_t and ok_thr, 'C19.7b', 'R15', fn.site(td[0]) if td else fn.site(), '; '.join(ast.unparse(x) for x in td + thr), 'the label is a deterministic step function of the needle column 30 alone (no noise)',
-               'the label must be column 30 of the sample thresholded at 40 (0 below, 1 from 40), with no further randomness', soft=True)
+    # the thresholding decided over the value domain of the sample (integers 10..99): the masked stores are applied, in program order, to every
+    # possible value of the needle column; the result must be 0 below 40 and 1 from 40
+    verdict = _threshold_table(fn, m, S, T, td[0] if ok_t else None)
+    shown = '; '.join(ast.unparse(x) for x in td + thr)[:160]
+    if not ok_t:
+        chk.expect(False, 'C19.7b', 'R15', fn.site(td[0]) if td else fn.site(), shown, '', 'the label must be column 30 of the sample thresholded at 40 (0 below, 1 from 40), with no further randomness', soft=True)
+    elif verdict[0] == 'ok':
+        chk.ok('C19.7b', 'R15', fn.site(td[0]), shown, 'the label is a deterministic step function of the needle column 30 alone: 0 below 40, 1 from 40 (checked for every value 10..99 of the sample)')
+    elif verdict[0] == 'bad':
+        chk.bad('C19.7b', 'R15', fn.site(verdict[2]) if verdict[2] is not None else fn.site(td[0]), shown, f'the label must be column 30 of the sample thresholded at 40 (0 below, 1 from 40): {verdict[1]}')
+    else:
+        chk.unsure('C19.7b', 'R15', fn.site(verdict[2]) if verdict[2] is not None else fn.site(td[0]), shown, f'the statements that binarise the needle column are outside the vocabulary of masked stores: {verdict[1]}')
     r = returns(fn)
     chk.expect(len(r) == 1 and ast.unparse(r[0].value) == f'({S}, {T})', 'C19.7c', 'R6', fn.site(r[0]) if r else fn.site(), ast.unparse(r[0]) if r else '', 'returns (sample, target)', 'must return (sample, target)')
     mseed = [s for s in m.tree.body if isinstance(s, ast.Expr) and isinstance(s.value, ast.Call) and m.dotted(s.value.func) == 'numpy.random.seed' and s.value.args and isinstance(s.value.args[0], ast.Constant)]
